@@ -37,15 +37,20 @@ def first_diff(pred, nat):
     return ''
 
 
-def tcb_forged_part(ctx, role_filter, name='tcb-forged-segment', situations=None):
+def tcb_forged_part(ctx, role_filter, name='tcb-forged-segment', situations=None, shift=False, closed=None):
     """role_filter(key) -> bool: which violation roles belong to the calling property"""
     from mirx import tcbspecs, tcbrun
     t0 = time.time()
     part = Part(name, 'mirx (MIR symbolic executor) + z3 %s' % _z3v(),
                 functions=[], bounds='', outside='')
-    units = tcbspecs.all_units(situations)
-    budget = 900 if ctx.quick else 3000
-    results = tcbrun.run_units(units, tier=ctx.tier, budget=budget)
+    budget = 1200 if ctx.quick else 3000
+    if closed is not None:
+        from mirx import tcbclosed
+        units = [u for u in tcbclosed.closed_units(ctx.tier) if u['kind'] in closed]
+        results = tcbrun.run_units(units, tier=ctx.tier, budget=budget, fn=tcbclosed.worker_run_closed)
+    else:
+        units = tcbspecs.all_units(situations, fin_split=not (shift and ctx.quick))
+        results = tcbrun.run_units(units, tier=ctx.tier, budget=budget, fn=tcbspecs.worker_run_shift if shift else None)
     enc, mods = set(), set()
     viol_by_key = {}
     validation = []
@@ -63,8 +68,11 @@ def tcb_forged_part(ctx, role_filter, name='tcb-forged-segment', situations=None
         validation += r.validation
         u = r.unit
         nviol = len([v for v in r.violations if role_filter(v['key'])])
-        part.units.append({'name': f'{u["situation"]}/{u["target"]}/flags={"".join(sorted(f[0] for f in tcbspecs.flags_of(u["cls"]))) or "-"}',
-                           'desc': 'situation reached through the public API with symbolic ISNs; one fully symbolic forged segment; then segments(), receive()',
+        uname = (f'{u["kind"]}/{u["variant"]}/faults<={u["faults"]}' + (f'/mtu={u["mtu"]}' if 'mtu' in u else '') + ('' if u.get('flush', True) else '/close-with-queued-data')) if closed is not None else \
+            f'{u["situation"]}/{u["target"]}/flags={"".join(sorted(f[0] for f in tcbspecs.flags_of(u["cls"]))) or "-"}'
+        part.units.append({'name': uname,
+                           'desc': ('two real TCBs on a faulty network: per emitted segment deliver/drop/duplicate/delay within the fault budget, timers, eager and late reads; ' if closed is not None else '') + ('relational: the same history with ISNs shifted by symbolic k1, k2 must be identical up to the shifts; ' if shift else '') +
+                                   'situation reached through the public API with symbolic ISNs; one fully symbolic forged segment; then segments(), receive()',
                            'verdict': 'held' if (nviol == 0 and not r.unsupported) else ('violated' if nviol else 'inconclusive'),
                            'nontrivial': r.paths > 0,
                            'detail': f'{r.paths} feasible paths, {r.obligations} obligations, {r.stats.get("queries", 0)} solver queries, {r.wall:.1f}s',
@@ -97,7 +105,13 @@ def tcb_forged_part(ctx, role_filter, name='tcb-forged-segment', situations=None
             why = first_diff(it['predicted'], lines) if matched is False else ('native run failed: ' + err[-300:])
             part.inconclusive.append(f'translator validation: a symbolic trace disagrees with the native Tcb ({why})')
     part.validated = nval
-    part.bounds = (f'{len(units)} units = {len(set((u["situation"], u["target"]) for u in units))} (situation, endpoint) pairs x 16 ACK/RST/SYN/FIN classes; '
+    if closed is not None:
+        part.bounds = (f'{len(units)} scenarios ({", ".join(sorted(set(u["kind"] + "/" + u["variant"] for u in units)))}); ISNs 32-bit symbolic, write sizes symbolic 1..=2*MSS (A) / 1..=MSS (B); '
+                       f'fault budget {max(u["faults"] for u in units)} (any emitted segment incl. SYN/SYN-ACK/ACK/FIN: drop, duplicate, delay behind the round), retransmission and 2*MSL timers; <=14-16 rounds; MTU 1500 and 100')
+        part.outside = 'more faults than the budget; more than two data segments per write at MTU 1500; application writes at other points than listed; arbitrary (non-round-based) interleavings'
+        return part
+    part.bounds = (f'{len(units)} units = {len(set((u["situation"], u["target"]) for u in units))} (situation, endpoint) pairs x {len(units) // len(set((u["situation"], u["target"]) for u in units))} flag classes; '
+                   + ('both ISN shifts k1, k2 32-bit symbolic (wrap-around anywhere in handshake or transfer included); ' if shift else '') +
                    'ISNs 32-bit symbolic; forged seq, ack 32-bit, window 16-bit, PSH/URG, text length 0..=MSS symbolic; written data 1..=2*MSS symbolic; '
                    + ('follow-up: segments(), receive()' if ctx.quick else 'follow-up: segments(), receive(), advance_time(symbolic <= 5 s), segments()'))
     part.outside = 'more than one forged segment per history; MTU other than 1500; states reachable only through longer histories than the situations listed'
